@@ -107,6 +107,26 @@ EXTRA = {
     "C19": "Also: do_lineprefix is reachable only through the filter table; string literals are unescaped after newline normalisation; the `ignore missing` handler closes the try around the template lookup only; every top-level name is published to context.vars.",
     "C20": "Also: a filter that escapes with quote=False or returns Markup may not feed an attribute value; the namespace macros recurse into every nested namespace unconditionally.",
 }
+# clauses added in round 7
+EXTRA7 = {
+    "C01": "The top-level serialize() macro is called for every type (no type-dependent trivial body); bulk array copies precede and match the cursor advance.",
+    "C02": "The top-level deserialize() macro is called for every type; bulk array reads precede and match the cursor advance; every path of the scalar emitters contains a judged read.",
+    "C03": "The C++ value initializer names the counterpart value on every initialising path (allocator flavours); bulk transfers symmetric.",
+    "C05": "VariantType::MAX_INDEX of both C++ union flavours is the option count; an unparenthesised most-negative literal needs the macro's parentheses.",
+    "C06": "R-C06-COMMENT-EOL: nothing is glued onto a `//` comment line by whitespace control; R-C06-VARIANT-INDEX: union alternatives are selected by index only.",
+    "C07": "The include order is decided jointly: the caller sorts the whole list, or sorts its part and the language's includes come in a fixed order.",
+    "C09": "The identifier category reaches the encoder as given.",
+    "C12": "Post-processor list builders with several returns end with SetFileMode in each alternative.",
+    "C13": "The loader reads every configuration document the package ships; configuration values are not changed in place by their consumers.",
+    "C14": "Direct reads with quotient indexes are bounded; the copy loop's step is a minimum taken at full width (termination); the window subtraction of subspan() is guarded; Python two's complement recognised by shape with folded constants.",
+    "C15": "Support-file copies do not translate line terminators (fix 1efe2dd); the generator hands on every processor it was given, in order.",
+    "C17": "An assertion is not glued onto a `//` banner line.",
+    "C18": "get_class retries stropped namespace components one at a time.",
+    "C19": "Sibling agreement inside the engine: constant-folding tables vs emitted operators, merged context view vs lookup order.",
+    "C20": "The page a type link names lists the entry; the url filter is used through the templates only (page-depth prefix).",
+}
+for _k, _v in EXTRA7.items():
+    EXTRA[_k] = (EXTRA.get(_k, "") + " " + _v).strip()
 for _k, _v in EXTRA.items():
     P[_k]["text"] = P[_k]["text"] + " " + _v
 
